@@ -20,7 +20,7 @@ RULE = ('hostile multi-MiB streams per format (valid images, every length/count/
         'values, pure text, random) x chunk schedules (giant, 1 MiB, 64 KiB, 4 KiB, boundary cuts, byte windows); the '
         'retained total is read after every chunk. non-trivial = stream longer than the bound of its inspector; '
         'distinct by (stream spec, inspector, schedule)')
-REQUIRED_CLAUSES = ['bound-after-chunk', 'bound-after-finish', 'clamp-reached-vmdk', 'clamp-reached-vhdx']
+REQUIRED_CLAUSES = ['bound-under-reused-chunk-buffers', 'bound-after-chunk', 'bound-after-finish', 'clamp-reached-vmdk', 'clamp-reached-vhdx']
 ASSUMPTIONS = ['context_info is the audit accessor named by the property; len(region.data) is cross-checked against it']
 INTERPRETER_FLAGS = [[], ['-O'], [], ['-bb']]
 SHARDS = {'quick': 8, 'thorough': 16}
@@ -152,7 +152,18 @@ def eval_case(ctx, case):
     for name in case['inspectors']:
         cls = F.ALL_FORMATS[name]
         bound = BOUND.get(name, DEFAULT_BOUND)
-        for klass, cuts in case['schedules']:
+        scheds = list(case['schedules'])
+        if n > 2 * MI + 512:
+            scheds.append(['first-512-then-2MiB', [512] + list(range(512 + 2 * MI, n, 2 * MI))])
+        # how the chunk is handed over is part of "however it is chunked": one bytearray refilled in place, or
+        # memoryview slices of one buffer (vlib/streamlab.Carrier), for the schedules with few chunks
+        for klass, cuts in list(scheds):
+            if len(cuts) <= 64 and (len(cuts) + n) % 2 == 0:
+                scheds.append([klass + '+bytearray', cuts, 'bytearray'])
+                scheds.append([klass + '+memoryview', cuts, 'memoryview'])
+        for sched in scheds:
+            klass, cuts = sched[:2]
+            carrier = sched[2] if len(sched) > 2 else 'bytes'
             st = {'max': 0, 'bad': None, 'n': 0}
 
             def cb(insp, pos):
@@ -163,7 +174,9 @@ def eval_case(ctx, case):
                     st['max'] = tot
                 if tot > bound and not st['bad']:
                     st['bad'] = (pos, tot, dict(info))
-            res = sl.feed(cls, data, cuts, monitor=False, per_chunk=cb)
+            res = sl.feed(cls, data, cuts, monitor=False, per_chunk=cb, carrier=carrier)
+            if carrier != 'bytes':
+                ctx.clause('bound-under-reused-chunk-buffers')
             insp = res['inspector']
             info = insp.context_info
             final = sum(info.values())
@@ -239,7 +252,10 @@ def run(ctx):
           dict(n_pad_meta=2046, with_vds=False), dict(meta_off=MI, with_vds=False), dict(meta_off=MI, item_len=(1 << 32) - 1),
           dict(item_off=2 * MI, item_len=(1 << 32) - 1, tail=3 * MI)]
     vh += [dict(meta_sig='metadatx'), dict(meta_sig='metadatx', meta_len=65536), dict(meta_sig='\x00etadata', n_pad_meta=100),
-           dict(regi=0), dict(meta_count=2048), dict(meta_count=65535, meta_sig='metadatx')]
+           dict(regi=0), dict(meta_count=2048), dict(meta_count=65535, meta_sig='metadatx'),
+           # backward pointers: the size item "inside" the entry table, the metadata region inside the headers
+           dict(item_off=40, n_pad_meta=3), dict(item_off=64), dict(item_off=0x100, n_pad_meta=100),
+           dict(item_off=32, item_len=(1 << 32) - 1), dict(meta_off=200 * 1024, item_off=0x10000)]
     vh += [dict(meta_len=0), dict(meta_len=4096), dict(meta_len=65535, item_off=65536), dict(meta_len=1, item_len=(1 << 32) - 1),
            dict(meta_len=65536, item_off=65544), dict(meta_len=0, item_len=0)]
     for p in vh:
@@ -319,6 +335,10 @@ def run(ctx):
                     if mo + d_ < len(data):
                         sch.append(['cut-inside-metadata-then-giant', [mo + d_]])
                         sch.append(['cut-inside-metadata-then-1MiB', [mo + d_] + list(range(mo + d_ + MI, len(data), MI))])
+                small = crng.choice([32, 512, 4096])
+                upto = mo + crng.choice([64, 4096, 65536 + 64])
+                if upto < len(data):
+                    sch.append(['small-chunks-through-metadata-start-then-giant', list(range(small, upto, small)) + [upto]])
         case = dict(spec, inspectors=insps, schedules=sch)
         ctx.sample(spec['gen'], {'gen': spec['gen'], 'params': spec['params'], 'inspectors': insps,
                                  'schedules': [s[0] for s in case['schedules']], 'stream_len': len(data)})
